@@ -8,7 +8,7 @@ class C13(Spec):
     required_theorems = ("C13.plugins_order_irrelevant", "C13.fanin_by_index", "C13.verify_all_order_irrelevant",
                          "C13.delDupKey_spec", "C13.checkKV_order_irrelevant", "C13.merge_order_irrelevant",
                          "C13.findByValue_order_irrelevant")
-    quick_timeout = 1500
+    quick_timeout = 3600
     level_text = ("Lean theorems of order-irrelevance where Go is non-deterministic: every modelled source of run-to-run "
                   "variation on the block-execution path is an explicit permutation argument - sorted plugin / title names for "
                   "any map iteration order, goroutine results stored by index for any arrival order (GetMerkleRoot, "
